@@ -369,6 +369,8 @@ class C19(PropertyCheck):
             cases.append(Case("c19 pal 8 4 %s %s" % (hx(img), hx(rand_bytes(rng, 2 * ncol))), "edge-index-out-of-palette"))
         cases.append(Case("c19 idx %s %s" % (hx(b"\x00"), hx(bytes(7))), "edge-odd-size"))
         cases.append(Case("c19 pal 8 4 %s %s" % (hx(bytes([9] * 32)), hx(bytes(8))), "edge-index-out-of-palette"))
+        # the runner shards the case list into contiguous chunks: spread the expensive (large, model-compared) cases over the shards
+        rng.shuffle(cases)
         return cases
 
     # ------------------------------------------------------------------ comparison
